@@ -65,7 +65,7 @@ static void prop(Tape &t, Ctx &c) {
             VF_CHECK(crl == NULL, "crl-set-on-error", "psX509ParseCRL failed (%d) but returned an object", rc);
         }
         psX509FreeCert(ca);
-        leak.check(fmt("rc=%d auth=%d", rc, auth));
+        C09_LEAK_CHECK(leak, "rc=%d auth=%d", rc, auth);
     }
     if (rc >= 0) { c.count("parsed"); if (nrev) c.count("parsed.with-revoked"); if (auth == PS_SUCCESS) c.count("parsed.authenticated"); else if (haveCa) c.count("parsed.auth-failed"); }
     else if (deep) c.count("rejected.deep"); else c.count("rejected.shallow");
